@@ -33,11 +33,13 @@ using namespace tbox; using namespace tbox::event; using namespace tbox::http; u
 extern "C" int epoll_wait(int epfd, struct epoll_event *ev, int maxev, int) { return (int)syscall(SYS_epoll_wait, epfd, ev, maxev, 0); }
 extern "C" int select(int nfds, fd_set *r, fd_set *w, fd_set *e, struct timeval *) { struct timeval z = {0, 0}; return (int)syscall(SYS_select, nfds, r, w, e, &z); }
 
-enum { REQ, PASS };
+enum { REQ, PASS, RAW };                     // RAW: a malformed request (crash/hang freedom only; ends the judged part of the history)
 enum { KEEP, CLOSE, HTTP10 };                 // HTTP/1.1 keep-alive | HTTP/1.1 + Connection: close | HTTP/1.0 (no Connection header)
-enum { ALONE, GLUED, CUT };                   // own segment | same segment as the next request | cut into two segments (a pass in between)
+enum { ALONE, GLUED, CUT, CUTM };             // own segment | same segment as the next request | cut into two segments in the middle (a pass in between) | cut inside the method token
+enum { BAD_CONTENT_LENGTH, BAD_METHOD };
 struct Op { int k, kind, delay, seg; };
-static const char *kKind[] = {"keep", "close", "http10"}, *kSeg[] = {"alone", "glued", "cut"};
+static const char *kKind[] = {"keep", "close", "http10"}, *kSeg[] = {"alone", "glued", "cut", "cutm"}, *kRaw[] = {"bad-content-length", "bad-method"};
+static const char *kRawText[] = {"POST /x HTTP/1.1\r\nContent-Length: abc\r\n\r\n", "BREW /x HTTP/1.1\r\nContent-Length: 0\r\n\r\n"};
 
 static std::string g_transport = "unix", g_engine = "epoll";
 
@@ -53,14 +55,14 @@ struct World {
   Loop *loop = nullptr; Server *srv = nullptr; int cfd = -1; std::string sock_path;
   int pass_no = 0;
   std::vector<int> kinds, delays;             // per request issued by the client (index = request number)
-  std::vector<bool> sent;                     // fully written to the socket
+  std::vector<bool> sent;                     // the client has issued write() for all of its bytes (a refused write is the server's doing)
   std::string out;                            // client-side bytes not yet written (glued requests)
   std::vector<int> out_reqs;                  // requests contained in `out`
   std::vector<int> delivered;                 // request numbers in the order the handler saw them
   std::vector<Pending> pending;
   std::string rx; bool eof = false; size_t rx_at_eof = 0; bool wr_failed = false;
   std::string viol;
-  int completed = 0; bool verbose = false;
+  int completed = 0; bool verbose = false; bool malformed_sent = false;
 
   bool setup() {
     signal(SIGPIPE, SIG_IGN);
@@ -171,19 +173,20 @@ struct World {
 
   void apply(const Op &o) {
     if (o.k == PASS) { pass(); return; }
+    if (o.k == RAW) { out += kRawText[o.kind]; flush_out(); malformed_sent = true; pass(); return; }
     int i = (int)kinds.size(); kinds.push_back(o.kind); delays.push_back(o.delay); sent.push_back(false);
     std::string t = req_text(i, o.kind);
     if (o.seg == GLUED) { out += t; out_reqs.push_back(i); return; }
     if (o.seg == ALONE) { out += t; out_reqs.push_back(i); flush_out(); pass(); return; }
     // CUT: everything glued so far + the first half in one segment, a pass, then the second half, a pass
-    size_t half = t.size() / 2;
+    size_t half = o.seg == CUTM ? 2 : t.size() / 2;
     out += t.substr(0, half); std::string first = out; out.clear(); std::vector<int> rs = out_reqs; out_reqs.clear();
-    client_write(first); if (!wr_failed) for (int r : rs) sent[r] = true;
+    client_write(first); for (int r : rs) sent[r] = true;
     pass();
-    client_write(t.substr(half)); if (!wr_failed) sent[i] = true;
+    client_write(t.substr(half)); sent[i] = true;
     pass();
   }
-  void flush_out() { std::string b = out; out.clear(); std::vector<int> rs = out_reqs; out_reqs.clear(); client_write(b); if (!wr_failed) for (int r : rs) sent[r] = true; }
+  void flush_out() { std::string b = out; out.clear(); std::vector<int> rs = out_reqs; out_reqs.clear(); client_write(b); for (int r : rs) sent[r] = true; }
 
   std::string canon() {
     std::string c; char b[256];
@@ -204,7 +207,7 @@ struct World {
     c += "pend="; for (auto &p : pending) c += std::to_string(p.idx) + "@" + std::to_string(p.due - pass_no) + ",";
     c += "|glued="; for (int r : out_reqs) c += std::string(kKind[kinds[r]]) + std::to_string(delays[r]) + ",";
     int fc = first_closing();
-    snprintf(b, sizeof b, "|issued=%zu closing=%d delivered=%zu got=%zu eof=%d wrfail=%d", kinds.size(), fc, delivered.size(), tags.size(), (int)eof, (int)wr_failed); c += b;
+    snprintf(b, sizeof b, "|issued=%zu closing=%d delivered=%zu got=%zu eof=%d wrfail=%d bad=%d", kinds.size(), fc, delivered.size(), tags.size(), (int)eof, (int)wr_failed, (int)malformed_sent); c += b;
     return c;
   }
 
@@ -215,9 +218,10 @@ struct World {
     int c = first_closing();
     if (g_transport == "tcp" && c >= 0 && !eof) { struct pollfd p = {cfd, POLLIN, 0}; poll(&p, 1, 200); client_read(); }
     check_stream(true); if (!viol.empty()) return;
+    if (malformed_sent) return;      // after a malformed request only crash/hang freedom and the stream-level rules (no duplicate, order, nothing after close) are judged
     for (int i : delivered) {
       bool answered = i < (int)tags.size();
-      if (c >= 0 && i > c) { if (!answered) { viol = "request-after-connection-close-handed-to-handler-but-not-answered r" + std::to_string(i); return; } continue; }
+      if (c >= 0 && i > c) { if (!answered) { viol = "requests-after-connection-close-are-handed-to-handler-not-answered r" + std::to_string(i); return; } continue; }
       if (!answered) {
         std::string sg = std::string("response-never-written-to-") + (i == c ? "closing-request" : c >= 0 ? "request-before-closing-request" : "keep-alive-request")
                        + (delays[i] ? "-handler-completes-after-callback" : "-handler-completes-in-callback");
@@ -234,6 +238,7 @@ struct World {
 
 static std::string show_op(const Op &o) {
   if (o.k == PASS) return "pass";
+  if (o.k == RAW) return std::string("raw(") + kRaw[o.kind] + ")";
   char b[64]; snprintf(b, sizeof b, "req(%s,d%d,%s)", kKind[o.kind], o.delay, kSeg[o.seg]); return b;
 }
 static bool parse_hist(const std::string &s, std::vector<Op> &h) {
@@ -242,8 +247,11 @@ static bool parse_hist(const std::string &s, std::vector<Op> &h) {
     while (p < s.size() && s[p] == ' ') p++; if (p >= s.size()) break;
     size_t e = s.find(' ', p); std::string t = s.substr(p, e == std::string::npos ? std::string::npos : e - p); p = e == std::string::npos ? s.size() : e;
     if (t == "pass") { h.push_back({PASS, 0, 0, 0}); continue; }
+    if (t == "raw(bad-content-length)") { h.push_back({RAW, BAD_CONTENT_LENGTH, 0, 0}); continue; }
+    if (t == "raw(bad-method)") { h.push_back({RAW, BAD_METHOD, 0, 0}); continue; }
     char k[16], g[16]; int d; if (sscanf(t.c_str(), "req(%15[a-z0-9],d%d,%15[a-z])", k, &d, g) != 3) return false;
-    Op o{REQ, 0, d, 0}; for (int i = 0; i < 3; i++) { if (!strcmp(k, kKind[i])) o.kind = i; if (!strcmp(g, kSeg[i])) o.seg = i; }
+    Op o{REQ, 0, d, 0}; for (int i = 0; i < 3; i++) if (!strcmp(k, kKind[i])) o.kind = i;
+    for (int i = 0; i < 4; i++) if (!strcmp(g, kSeg[i])) o.seg = i;
     h.push_back(o);
   }
   return true;
@@ -289,13 +297,18 @@ int main(int argc, char **argv) {
   ex.fork_workers = (int)hx::env_int("VERIF_WORKERS", 4);
   ex.child_timeout_s = 120; ex.max_viol_print = 1000000;     // the per-signature limit (3) still applies
   ex.show = show_op;
-  // signature = first token of the violation text; crash signatures are kept whole
+  // signature = first token of the violation text; a child killed by the escaping std::stoi exception gets a readable name
+  ex.sig = [](const std::string &v) {
+    if (v.compare(0, 6, "crash:") == 0 && v.find("uncaught-exception(stoi") != std::string::npos) return std::string("server-terminates-on-uncaught-stoi-exception-from-content-length");
+    return v.substr(0, v.find(' ')); };
   ex.menu = [&](const std::vector<Op> &h) {
-    std::vector<Op> m; int nreq = 0; bool glued_open = false;
-    for (auto &o : h) if (o.k == REQ) { nreq++; glued_open = (o.seg == GLUED); }
-    if (nreq < maxreq) {
+    std::vector<Op> m; int nreq = 0; bool glued_open = false, bad = false;
+    for (auto &o : h) { if (o.k == REQ) { nreq++; glued_open = (o.seg == GLUED); } if (o.k == RAW) { bad = true; glued_open = false; } }
+    if (nreq < maxreq && !bad) {
       for (int seg : {ALONE, GLUED}) for (int kind : {KEEP, CLOSE, HTTP10}) for (int d : {0, 1, 2}) m.push_back({REQ, kind, d, seg});
       for (int kind : {KEEP, CLOSE, HTTP10}) for (int d : {0, 1}) m.push_back({REQ, kind, d, CUT});
+      m.push_back({REQ, KEEP, 0, CUTM});
+      for (int v : {BAD_CONTENT_LENGTH, BAD_METHOD}) m.push_back({RAW, v, 0, 0});
     }
     if (!glued_open) m.push_back({PASS, 0, 0, 0});      // a pass while bytes are still held back by the client would only reorder equivalent histories
     return m; };
